@@ -14,4 +14,6 @@ Extraction "C16_model.ml" wire_anchor
   spec_signbit spec_fabs spec_copysign spec_isnan spec_isinf spec_isfinite
   spec_fmin spec_fmax spec_fdim spec_nextafter spec_fmod spec_remainder spec_midpoint
   spec_lerp_exact spec_hypot_special spec_hypot3_special
+  raw_signbit raw_neg raw_e_abs raw_e_copysign_fb raw_e_signbit_fb
+  spec_raw_fabs spec_raw_copysign spec_raw_signbit spec_rint_rm spec_lrint_rm
   Bsqrt Bfma Bsign is_nan is_finite.
